@@ -285,6 +285,11 @@ def targetOp (s : State) (toks : List String) : Option (State × String) :=
     let t ← s.target
     let (t', r) := Std.Target.step t cdb dout n
     pure ({ s with target := some t' }, "ok " ++ (match r.status with | .good => "good" | .checkCondition => "cc") ++ " " ++ showBytes r.datain)
+  | ["tgtaddr", cdb] => do
+    -- the conformant target's reading of a READ/WRITE CDB (operation code, LBA, TRANSFER LENGTH by byte position)
+    let cdb ← parseBytes cdb
+    let (lba, tl) := Std.Target.addr cdb
+    pure (s, "ok " ++ toString (cdb.headD 0) ++ " " ++ toString lba ++ " " ++ toString tl)
   | ["tgtdisk", lba] => do
     let lba ← lba.toNat?
     let t ← s.target
